@@ -3,7 +3,7 @@ from symx.api import And, Iff, Implies, Instance, Ite, Not, Or
 
 META = {
     "bounds": {
-        "screens": "2x1, 3x1, 2x2, 3x2 (quick) plus 1x1, 1x2, 4x2, 3x3 (thorough); every cell an arbitrary byte 0..126 (controls are shown as '?'), "
+        "screens": "2x1, 3x1, 2x2, 3x2 (quick) plus 1x1, 1x2 (thorough; 4x2 and 3x3 did not finish within the budget); every cell an arbitrary byte 0..126 (controls are shown as '?'), "
                    "attribute runs over {None, 'a' (palette entry), 'undef' (not in the palette), an AttrSpec with standout} with solver-chosen boundaries, "
                    "charset runs None/'0' (non-utf-8 output), cursor anywhere or absent",
         "history": "two frames (three in thorough), optionally clear() between them, optionally a resize to another of the sizes",
@@ -19,7 +19,7 @@ SIZES_Q = [(2, 1), (3, 1), (2, 2), (3, 2)]
 
 def instances(tier):
     q = tier == "quick"
-    sizes = SIZES_Q if q else SIZES_Q + [(1, 1), (1, 2), (4, 2), (3, 3)]
+    sizes = SIZES_Q if q else SIZES_Q + [(1, 1), (1, 2)]
     out = []
     for (c, r) in sizes:
         for mode in ("bytes", "attrs", "cs", "cursor"):
